@@ -11,6 +11,9 @@ bit for bit with the real code (checked, not proved).
 -/
 import IblVerif.Lemmas.Reader
 import IblVerif.Lemmas.ReaderSort
+import IblVerif.Lemmas.ReaderMetaC01
+import IblVerif.Lemmas.ReaderChunksC01
+import IblVerif.Analysis.ReaderExactC01
 
 namespace IblVerif.C01
 open IblVerif.PySlice IblVerif.Reader
@@ -34,6 +37,35 @@ theorem read_cbin_eq_index_calibrated_partial {α β γ : Type} (cast : Int → 
     (nsel csel : Sel) (h : CbinSupported nsel r.ns) :
     readM cast mul r nsel csel = selectM (calibratedAt cast mul r) r.ns r.nc nsel csel :=
   readM_cbin_eq_selectM cast mul r nsel csel h
+
+/-- Compressed files, EVERY chunk layout (any number of non-empty chunks of any sizes): for a slice with a positive
+step the chunk-level read of mtscomp (`ChunkRead.mtsSlice`: bounds validation, bisection on `chunk_bounds`,
+concatenation of the chunks `first..last`, sub-selection) returns exactly the rows at the positions the chunk-free
+sample axis `rowsCbin` of the theorem above visits — all valid positions — so two files holding the same samples cut
+into chunks differently read alike; an integer index in `[-ns, ns)` likewise. -/
+theorem cbin_read_independent_of_chunk_layout {ρ : Type} (chunks chunks' : List (List ρ))
+    (hne : ∀ c ∈ chunks, c ≠ []) (hne' : ∀ c ∈ chunks', c ≠ []) (heq : chunks.flatten = chunks'.flatten)
+    (s : Slice) (hst : 0 < s.stepVal) :
+    (∃ pos : List Nat, rowsCbin (.slice s) chunks.flatten.length = .ok (.many pos) ∧
+      (∀ p ∈ pos, p < chunks.flatten.length) ∧
+      ChunkRead.mtsSlice chunks s.start s.stop s.step = .ok (pos.filterMap fun p => chunks.flatten[p]?)) ∧
+    ChunkRead.mtsSlice chunks s.start s.stop s.step = ChunkRead.mtsSlice chunks' s.start s.stop s.step ∧
+    (∀ i : Int, -(chunks.flatten.length : Int) ≤ i → i < chunks.flatten.length →
+      ∃ p : Nat, rowsCbin (.int i) chunks.flatten.length = .ok (.one p) ∧
+        ∃ hp : p < chunks.flatten.length, ChunkRead.mtsIndex chunks i = .ok (chunks.flatten[p])) := by
+  refine ⟨mtsSlice_eq_rowsCbin chunks hne s hst, ?_, fun i h1 h2 => mtsIndex_eq_rowsCbin chunks hne i h1 h2⟩
+  obtain ⟨pos, h1, _, h3⟩ := mtsSlice_eq_rowsCbin chunks hne s hst
+  obtain ⟨pos', h1', _, h3'⟩ := mtsSlice_eq_rowsCbin chunks' hne' s hst
+  rw [← heq] at h1' h3'
+  rw [h1] at h1'
+  have : pos = pos' := by injection h1' with h; injection h
+  rw [h3, h3', this]
+
+/-- Non-vacuity: six rows cut as 2+1+3 and as 4+2, the slice `1:6:2` straddles every chunk bound. -/
+example : ChunkRead.mtsSlice [[10, 20], [30], [40, 50, 60]] (some 1) (some 6) (some 2) = .ok [20, 40, 60] ∧
+    ChunkRead.mtsSlice [[10, 20, 30, 40], [50, 60]] (some 1) (some 6) (some 2) = .ok [20, 40, 60] ∧
+    rowsCbin (.slice ⟨some 1, some 6, some 2⟩) 6 = .ok (.many [1, 3, 5]) := by
+  refine ⟨by decide, by decide, by decide⟩
 
 /-- A 3-sample, 2-channel witness recording (channels swapped by the order, distinct gains), over `Int`. -/
 def demo (cbin : Bool) : Rec Int :=
@@ -165,6 +197,164 @@ theorem sync_unscaled {α γ : Type} (cast : Int → α) (mul : α → γ → α
 
 /-- Non-vacuity: a 2-electrode geometry, 3 saved channels, one sync. -/
 example : rawChannelOrder 3 (some [1, 0]) = .ok [1, 0, 2] ∧ s2vVec [5, 7] (1 : Int) 1 = [5, 7, 1] := by decide
+
+/-- `_get_sync_trace_indices_from_meta` names the LAST `nsync` saved channels (none when the sync word is not
+saved), and `Reader.nsync` counts them. -/
+theorem sync_trace_indices_are_last (ntr nsync : Int) :
+    syncTraceIndices ntr nsync = (List.range nsync.toNat).map (fun k : Nat => ntr - nsync + (k : Int)) ∧
+    nsyncM ntr nsync = nsync.toNat ∧
+    (∀ i, i ∈ syncTraceIndices ntr nsync ↔ ntr - nsync ≤ i ∧ i < ntr) :=
+  ⟨syncTraceIndices_eq ntr nsync, nsyncM_eq ntr nsync, mem_syncTraceIndices ntr nsync⟩
+
+example : syncTraceIndices 385 1 = [384] ∧ syncTraceIndices 384 0 = [] ∧ nsyncM 9 2 = 2 := by
+  refine ⟨by decide, by decide, by decide⟩
+
+/-- The volts-per-bit vector of an imec stream as `_conversion_sample2v_from_meta` builds it from the meta entries
+(`nSavedChans`, `snsApLfSy`, the imro table), for consistent counts (`0 ≤ nsync ≤ nSavedChans`, a table entry for every
+saved electrode channel): one factor per saved channel IN ON-DISK ORDER; electrode channel `c` carries the conversion
+of imro entry `c` with the gain column of the stream's own band (AP stream → AP gain, LF stream → LF gain); the
+entries at the sync trace indices are one.  NP2: one factor for every electrode channel.  A stream saved WITHOUT its
+sync word (`nsync = 0`) has no unit entries at all. -/
+theorem s2v_layout_from_meta {γ κ : Type} (factor : Band → κ → γ) (f one : γ) (tbl : List κ) (m : ImecCounts)
+    (b : Band) (hb : bandOf m.nAp m.nLf = some b) (hsy : 0 ≤ m.nSy) (hle : m.nSy ≤ m.nSaved) :
+    ((m.nSaved - m.nSy).toNat ≤ tbl.length →
+      ∃ v, s2vNp1 factor one tbl m = some v ∧ v.length = m.nSaved.toNat ∧
+        (∀ c, c < (m.nSaved - m.nSy).toNat → v[c]? = (tbl[c]?).map (factor b)) ∧
+        (∀ i, i ∈ syncTraceIndices m.nSaved m.nSy → v[i.toNat]? = some one)) ∧
+    (∃ v, s2vNp2 f one m = some v ∧ v.length = m.nSaved.toNat ∧
+        (∀ c, c < (m.nSaved - m.nSy).toNat → v[c]? = some f) ∧
+        (∀ i, i ∈ syncTraceIndices m.nSaved m.nSy → v[i.toNat]? = some one)) := by
+  constructor
+  · intro htbl
+    obtain ⟨v, h1, h2, h3, h4⟩ := s2vNp1_layout factor one tbl m b hb hsy hle htbl
+    refine ⟨v, h1, h2, h3, fun i hi => ?_⟩
+    have := (mem_syncTraceIndices _ _ i).mp hi
+    exact h4 i.toNat (by omega) (by omega)
+  · obtain ⟨v, h1, h2, h3, h4⟩ := s2vNp2_layout f one m b hb hsy hle
+    refine ⟨v, h1, h2, h3, fun i hi => ?_⟩
+    have := (mem_syncTraceIndices _ _ i).mp hi
+    exact h4 i.toNat (by omega) (by omega)
+
+/-- Non-vacuity: an LF stream of 2 electrode channels + sync picks the LF column and cuts a longer table; the same
+channels saved without the sync word carry no unit entry. -/
+example : s2vNp1 (fun b (e : Int × Int) => match b with | .ap => e.1 | .lf => e.2) (1 : Int)
+      [(500, 250), (125, 50), (7, 8)] ⟨3, 0, 2, 1⟩ = some [250, 50, 1] ∧
+    s2vNp1 (fun b (e : Int × Int) => match b with | .ap => e.1 | .lf => e.2) (1 : Int)
+      [(500, 250), (125, 50), (7, 8)] ⟨2, 2, 0, 0⟩ = some [500, 125] ∧
+    s2vNp2 (80 : Int) 1 ⟨2, 2, 0, 0⟩ = some [80, 80] := by
+  refine ⟨by decide, by decide, by decide⟩
+
+/-- Sync channels left unscaled, from the meta entries: on an imec stream whose vector is the one
+`_conversion_sample2v_from_meta` builds and whose geometry covers at most the electrode channels, every column named
+by `_get_sync_trace_indices_from_meta` is the on-disk column itself, converted but not scaled. -/
+theorem sync_trace_columns_unscaled {α γ κ : Type} (cast : Int → α) (mul : α → γ → α) (one : γ)
+    (hone : ∀ x, mul x one = x) (factor : Band → κ → γ) (tbl : List κ) (m : ImecCounts) (b : Band)
+    (hb : bandOf m.nAp m.nLf = some b) (hsy : 0 ≤ m.nSy) (hle : m.nSy ≤ m.nSaved)
+    (htbl : (m.nSaved - m.nSy).toNat ≤ tbl.length)
+    (r : Rec γ) (hnc : (r.nc : Int) = m.nSaved) (v : List γ) (hv : s2vNp1 factor one tbl m = some v)
+    (hs2v : ∀ c, c < r.nc → v[c]? = some (r.s2v c))
+    (o ol : List Nat) (ho : o.length ≤ (m.nSaved - m.nSy).toNat)
+    (hol : rawChannelOrder r.nc (some o) = .ok ol) (horder : ∀ i, i < r.nc → ol[i]? = some (r.order i))
+    (t : Nat) (i : Int) (hi : i ∈ syncTraceIndices m.nSaved m.nSy) :
+    calibratedAt cast mul r t i.toNat = cast (r.raw t i.toNat) := by
+  have hmem := (mem_syncTraceIndices _ _ i).mp hi
+  have hn := nChn_eq m hsy
+  have hlen : ((pyPrefix tbl m.nChn).map (factor b)).length = (m.nSaved - m.nSy).toNat := by
+    rw [List.length_map, hn, pyPrefix_length _ _ (by omega) htbl]
+  have hveq : v = s2vVec ((pyPrefix tbl m.nChn).map (factor b)) one m.nSy.toNat := by
+    unfold s2vNp1 at hv; rw [hb] at hv; exact (Option.some.inj hv).symm
+  exact sync_unscaled cast mul one hone r o ol ((pyPrefix tbl m.nChn).map (factor b)) m.nSy.toNat
+    (by rw [hlen]; omega) (by rw [hlen]; exact ho) hol horder (fun c hc => by rw [← hveq]; exact hs2v c hc)
+    t i.toNat (by rw [hlen]; omega) (by omega)
+
+/-! ### `read(..., sync=True)`, `read_samples`, module-level `read`: data and sync bits of the same samples -/
+
+/-- `Reader.read(slice, csel, sync=True)` on a backend that serves the slice like NumPy (uncompressed, or positive
+step): the data part is NumPy indexing of the calibrated array — so the pair's first component is what
+`read(..., sync=False)` returns — and row `p` of the sync part decodes the stored sync word(s) of sample `a + p·st`,
+the very sample data row `p` comes from (`read_slice_entry`); with one sync word it has exactly as many rows as the
+data, without a saved sync word it has none. -/
+theorem read_pair_aligned {α β γ : Type} (cast : Int → α) (mul : α → γ → β) (r : Rec γ) (sidx : List Nat)
+    (s : Slice) (csel : Sel) (a b st : Int) (hn : indices s r.ns = some (a, b, st))
+    (hsup : r.cbin = false ∨ 0 < st) :
+    readPairM cast mul r sidx s csel =
+      (selectM (calibratedAt cast mul r) r.ns r.nc (.slice s) csel).map (fun d =>
+        (d, ((List.range (rangeLen a b st)).flatMap fun p : Nat =>
+              sidx.map fun c => r.raw (a + p * st).toNat c).map syncWordBits)) ∧
+    (readPairM cast mul r sidx s csel).map Prod.fst = readM cast mul r (.slice s) csel ∧
+    (∀ c, sidx = [c] → ∀ d y, readPairM cast mul r sidx s csel = .ok (d, y) →
+      y = (List.range (rangeLen a b st)).map fun p : Nat => syncWordBits (r.raw (a + p * st).toNat c)) ∧
+    (sidx = [] → ∀ d y, readPairM cast mul r sidx s csel = .ok (d, y) → y = []) := by
+  have h := readPairM_eq cast mul r sidx s csel a b st hn hsup
+  have hread : readM cast mul r (.slice s) csel = selectM (calibratedAt cast mul r) r.ns r.nc (.slice s) csel := by
+    by_cases hb : r.cbin = false
+    · exact readM_bin_eq_selectM cast mul r hb _ _
+    · have hst : 0 < st := by rcases hsup with h' | h'; exact absurd h' hb; exact h'
+      have hsv : st = s.stepVal := (indices_bounds s r.ns a b st hn).1
+      exact readM_cbin_eq_selectM cast mul r _ _ (by simp only [CbinSupported]; omega)
+  refine ⟨h, ?_, ?_, ?_⟩
+  · rw [h, hread]
+    cases selectM (calibratedAt cast mul r) r.ns r.nc (.slice s) csel <;> rfl
+  · intro c hc d y hy
+    rw [h, hc] at hy
+    cases hsel : selectM (calibratedAt cast mul r) r.ns r.nc (.slice s) csel with
+    | error e => rw [hsel] at hy; cases hy
+    | ok d' =>
+      rw [hsel] at hy
+      simp only [Except.map, Except.ok.injEq, Prod.mk.injEq] at hy
+      rw [← hy.2]
+      simp only [List.map_cons, List.map_nil]
+      rw [flatMap_single, List.map_map]
+      rfl
+  · intro hc d y hy
+    rw [h, hc] at hy
+    cases hsel : selectM (calibratedAt cast mul r) r.ns r.nc (.slice s) csel with
+    | error e => rw [hsel] at hy; cases hy
+    | ok d' =>
+      rw [hsel] at hy
+      simp only [Except.map, Except.ok.injEq, Prod.mk.injEq] at hy
+      rw [← hy.2]
+      simp
+
+/-- `read_samples(first, last, channels)` — and the module-level `spikeglx.read(file, first, last)`, which forwards
+to it — return the slice `first:last` of the calibrated array and the sync bits of the same samples, on both
+backends (the step is one). -/
+theorem read_samples_pair_eq {α β γ : Type} (cast : Int → α) (mul : α → γ → β) (r : Rec γ) (sidx : List Nat)
+    (first last : Int) (channels : Option Sel) :
+    readSamplesPairM cast mul r sidx first last channels =
+      (selectM (calibratedAt cast mul r) r.ns r.nc (.slice ⟨some first, some last, none⟩)
+          (channels.getD (.slice Slice.all))).map (fun d =>
+        (d, ((List.range (rangeLen (adjust first r.ns 1) (adjust last r.ns 1) 1)).flatMap fun p : Nat =>
+              sidx.map fun c => r.raw (adjust first r.ns 1 + p * 1).toNat c).map syncWordBits)) ∧
+    (readSamplesPairM cast mul r sidx first last channels).map Prod.fst
+      = readSamplesM cast mul r first last channels ∧
+    moduleReadM cast mul r sidx first last = readSamplesPairM cast mul r sidx first last none := by
+  have h := read_pair_aligned cast mul r sidx ⟨some first, some last, none⟩ (channels.getD (.slice Slice.all))
+    _ _ 1 (indices_first_last first last r.ns) (Or.inr (by omega))
+  exact ⟨h.1, h.2.1, rfl⟩
+
+/-- Non-vacuity on the witness recording: samples 1 and 2 of the swapped channels, sync word = on-disk channel 1
+(values 12 = 0b1100 and 22 = 0b10110). -/
+example : readSamplesPairM id (· * ·) (demo true) [1] 1 7 none
+    = .ok (.mat 2 [[36, 22], [66, 42]],
+           [[0, 0, 1, 1, 0, 0, 0, 0, 0, 0, 0, 0, 0, 0, 0, 0], [0, 1, 1, 0, 1, 0, 0, 0, 0, 0, 0, 0, 0, 0, 0, 0]]) := by
+  decide
+
+/-! ### The float32 chain: exact cases (over the reals, standard model of rounding) -/
+
+open IblVerif.Analysis.ReaderExact in
+/-- For every int16 sample: `astype(float32)` is exact; on a sync column (factor one) the product is `float32(raw)`
+itself; a power-of-two factor, and more generally any factor whose significand keeps `|x·mg| < 2^24`, multiplies
+exactly.  `rnd` is any rounding that fixes the finite binary32 numbers (IEEE-754 correct rounding).  For the real
+SpikeGLX factors (full 24-bit significands) the product IS rounded: that is executed, not proved. -/
+theorem float32_exact_cases (rnd : ℝ → ℝ) (hr : ∀ y, IsBinary32 y → rnd y = y) (x : ℤ) (hx : IsInt16 x) :
+    rnd (x : ℝ) = x ∧
+    rnd (rnd (x : ℝ) * 1) = x ∧
+    (∀ k : ℤ, -149 ≤ k ∧ k ≤ 104 → rnd (rnd (x : ℝ) * (2 : ℝ) ^ k) = x * (2 : ℝ) ^ k) ∧
+    (∀ mg eg : ℤ, |x * mg| < 2 ^ 24 → -149 ≤ eg ∧ eg ≤ 104 →
+      rnd (rnd (x : ℝ) * ((mg : ℝ) * (2 : ℝ) ^ eg)) = x * ((mg : ℝ) * (2 : ℝ) ^ eg)) :=
+  ⟨int16_cast_exact rnd hr x hx, sync_factor_one_exact rnd hr x hx, fun k hk => pow2_factor_exact rnd hr x hx k hk,
+   fun mg eg hm he => short_significand_factor_exact rnd hr x hx mg eg hm he⟩
 
 /-! ### Channel order and geometry -/
 
